@@ -421,7 +421,11 @@ func labs(ls []string) []j.B {
 // readRows issues a ReadRows request and decodes the chunk stream with a plain chunk reader.
 // decodeErr is non-empty if the stream is not decodable (reported in the reply as code 98).
 func (s *Server) readRows(req *btpb.ReadRowsRequest, wantChunks bool) (rows []Row, chunks []Chunk, nmsgs int, code int, msg string) {
-	ctx, cancel := ctxT()
+	return s.readRowsCtx(context.Background(), req, wantChunks)
+}
+
+func (s *Server) readRowsCtx(parent context.Context, req *btpb.ReadRowsRequest, wantChunks bool) (rows []Row, chunks []Chunk, nmsgs int, code int, msg string) {
+	ctx, cancel := context.WithTimeout(parent, 60*time.Second)
 	defer cancel()
 	stream, err := s.Data.ReadRows(ctx, req)
 	if err != nil {
@@ -525,8 +529,11 @@ func tableID(full string) (parent, id string) {
 }
 
 // Exec issues op against the emulator and fills op.Resp.
-func (s *Server) Exec(op *Op) {
-	ctx, cancel := ctxT()
+func (s *Server) Exec(op *Op) { s.ExecCtx(context.Background(), op) }
+
+// ExecCtx is Exec with a parent context (outgoing gRPC metadata travels with it).
+func (s *Server) ExecCtx(parent context.Context, op *Op) {
+	ctx, cancel := context.WithTimeout(parent, 60*time.Second)
 	defer cancel()
 	r := &Resp{}
 	op.Resp = r
@@ -658,7 +665,7 @@ func (s *Server) Exec(op *Op) {
 		if op.HasFilter {
 			req.Filter = filterToProto(op.Filter)
 		}
-		r.Rows, r.Chunks, r.NMsgs, r.Code, r.Msg = s.readRows(req, op.WantChunks)
+		r.Rows, r.Chunks, r.NMsgs, r.Code, r.Msg = s.readRowsCtx(parent, req, op.WantChunks)
 		if r.Code != 0 {
 			r.Rows = nil
 		}
